@@ -185,12 +185,14 @@ def one(prop, tier, seed, facts_override):
         print("check could not run: %r" % (e,))
         print("VIOLATION property=%s replay=%s" % (prop, rep))
         return 1
+    t_extra = time.time()
     selftests = None
     if tier == "thorough":
         from hcsa import selftest, witness
         selftests = selftest.run(prop, extract)
         if prop in ("C12", "C13", "C15"):
             selftests = selftests + witness.run(prop)
+    wall += time.time() - t_extra
     out_root = ROOT
     if os.path.realpath(REPO) != "/repo":
         # evaluating a scratch copy (seeded change, experiment): never touch the committed evidence
